@@ -113,6 +113,8 @@ def make_op(d, prog: GProg, selection: Optional[dict]):
         kw = {}
         if selection.get("T") is not None:
             kw["target_nodes"] = [ids[i] for i in selection["T"]]
+        if selection.get("R") is not None:
+            kw["root_nodes"] = [ids[i] for i in selection["R"]]
         if prog.is_async:
             async def op():
                 return await d.setup(**kw)
@@ -176,7 +178,9 @@ def selection_set(prog: GProg, selection: Optional[dict]):
         T = selection.get("T")
         if T is None:
             T = [i for i, nd in enumerate(prog.nodes) if nd.setup]
-        sel, why = prog.closure(None, None, T)
+        sel, why = prog.closure(selection.get("R"), None, T)
+        if sel is None or sel == "either":
+            raise ValueError(f"setup selection {selection} is outside the quantifier: {why}")
         return {i for i in sel if prog.nodes[i].setup}
     sel, why = prog.closure(selection.get("R"), selection.get("X"), selection.get("T"))
     if sel is None or sel == "either":
